@@ -25,11 +25,18 @@ def check(tier, seed):
             src = (f"gen:{xis[ki].hex()}", f"rt:{xis[ki].hex()}", f"bytes:{keys[ki][1].hex()}")[i % 3]
             jobs.append(('sign', s, keys[ki][1], m, c, mode, r))
             meta.append((s, mode, src, m, c, r, i))
+    # rare events of Algorithm 7 (corpus found with the reference): exactly omega hints, omega - 1, empty last / first hint polynomial
+    for s in fam.SETS:
+        for tag, xi, sk, pk, m, c, r in fam.rare_sign_cases(s):
+            jobs.append(('sign', s, sk, m, c, 'pure', r))
+            meta.append((s, 'pure', f"gen:{xi.hex()}", m, c, r, 10 ** 6 + len(meta)))
+            jobs.append(('sign', s, sk, m, c, 'sha512', r))
+            meta.append((s, 'sha512', f"bytes:{sk.hex()}", m, c, r, 10 ** 6 + len(meta)))
     refs = fam.ref_map(jobs)
     cases = []
     for (s, mode, src, m, c, r, i), sig in zip(meta, refs):
         cases.append({'line': f"sign {s} {mode} {src} {hx(m)} {hx(c)} ok:{r.hex()}", 'tag': f'{mode} {src.split(":")[0]}',
-                      'want': f"ok {sig.hex()} calls={'-' if mode == 'internal' else 'tryfill32'}", 'model': i < 5})
+                      'want': f"ok {sig.hex()} calls={'-' if mode == 'internal' else 'tryfill32'}", 'model': i < 5 or i == 10 ** 6 + 2 * n * 3})
     # hook level: the samplers of Algorithm 7 at the counter values a long rejection run would reach (kappa crossing byte
     # boundaries, the u16 range end), compared with the bit-level reference
     for s in fam.SETS:
